@@ -730,6 +730,43 @@ where
     if Arc::strong_count(&got) != 2 {
         return Err(format!("[{}] the deserialized container's value has strong count {} (expected container + this handle)", sname, Arc::strong_count(&got)));
     }
+    // Deserializing *into* an existing container (serde's `deserialize_in_place`, what derived
+    // impls with that feature and hand-written forwarding impls call) while guards of the old
+    // value are alive: the container must end up with the new value, and the old value must be
+    // fully accounted for (the guards keep denoting it, nothing is released twice).
+    for guards in [1usize, arc_swap_verif_rt::cfg::DEBT_SLOT_CNT + 1] {
+        let old = Arc::new(v.clone());
+        let probe = Arc::downgrade(&old);
+        let mut place: ArcSwapAny<Arc<Shape>, S> = ArcSwapAny::new(old);
+        let gs: Vec<_> = (0..guards).map(|_| place.load()).collect();
+        let mut de = serde_json::Deserializer::from_str(&js);
+        serde::Deserialize::deserialize_in_place(&mut de, &mut place).map_err(|e| e.to_string())?;
+        let now = place.load_full();
+        if *now != *v {
+            return Err(format!("[{}] deserialize_in_place left {:?} in the container instead of {:?}", sname, now, v));
+        }
+        if Arc::strong_count(&now) != 2 {
+            return Err(format!("[{}] after deserialize_in_place the new value has strong count {} (expected container + this handle)", sname, Arc::strong_count(&now)));
+        }
+        // the old value is owned by the guards only now: every guard that is not backed by a debt
+        // any more holds a counted reference
+        let strong = probe.strong_count();
+        if strong != guards {
+            return Err(format!(
+                "[{}] after deserialize_in_place with {} live guard(s) of the old value its strong count is {} (the guards' protection was not turned into references)",
+                sname, guards, strong
+            ));
+        }
+        for g in &gs {
+            if ***g != *v {
+                return Err(format!("[{}] a guard taken before deserialize_in_place reads {:?}", sname, **g));
+            }
+        }
+        drop(gs);
+        if probe.strong_count() != 0 {
+            return Err(format!("[{}] the value replaced by deserialize_in_place is still alive after its guards are gone (count {})", sname, probe.strong_count()));
+        }
+    }
     // ArcSwapOption flavour, Some and None
     for opt in [Some(Arc::new(v.clone())), None] {
         let swo: ArcSwapAny<Option<Arc<Shape>>, S> = ArcSwapAny::new(opt.clone());
@@ -787,7 +824,7 @@ pub fn c20(depth: usize) -> EnumResult {
         distinct.insert(serde_json::to_string(v).unwrap_or_default());
         for (name, r) in [("DefaultStrategy", c20_one::<DefaultStrategy>("DefaultStrategy", v)), ("FillFastSlots", c20_one::<NoFast>("FillFastSlots", v))] {
             res.cases += 1;
-            res.steps += 9;
+            res.steps += 9 + 2 * 4;
             if let Err(e) = r {
                 res.violations.push((format!("{} value={:?}", name, v), e));
             }
